@@ -33,7 +33,7 @@ THOROUGH_FILES = 20000
 BATCH = 100  # files per query file / readq process
 READQ_TIMEOUT_S = 120
 NSHARDS = 16
-FLAVOURS = ("plain", "cached", "generic")
+FLAVOURS = ("plain", "cached", "generic", "cached_persistent")
 BVH = runner.HARNESS_BIN["release"]
 
 
